@@ -198,7 +198,12 @@ static void prop_determinism(Tape &t, Ctx &c) {
     c.label(ref.find("|EXC:") != std::string::npos ? "outcome:exception" : "outcome:result");
     if (!poison_active()) { // sanitizer build: one more execution (different pre-history), reports are the oracle
         std::string d = run(-1, true, sec);
-        VF_REQUIRE(!leaks_found(), "LeakSanitizer: memory leaked by this case");
+#ifdef VF_FUZZ
+        // the stop-the-world leak scan costs ~0.1 s: in the libFuzzer campaign run it on every 64th input only
+        static unsigned long execs = 0;
+        if ((++execs & 63) == 0)
+#endif
+        VF_REQUIRE(!leaks_found(), "LeakSanitizer: memory leaked by this case (in the fuzz build: by one of the last 64 cases)");
         return;
     }
     static const int FILLS[] = {0xFF, 0xAA, 256, 0x00};
